@@ -2,6 +2,7 @@
 """make_seed_prompts.py <suffix> [Cxx ...] : write /tmp/seed-prompt-<Cxx>-<suffix>.txt for the sub-agents that seed
 defects. Each prompt carries ONLY the property text (from properties.jsonl) and the places already used by stored seeds
 of that property (file + enclosing item taken from the hunk headers of seeded/<id>/patch.diff) — nothing else from /verif.
+An optional environment variable SEED_HINT adds one paragraph of steering (what kind of change to prefer this round).
 Also creates the scratch worktree /tmp/seed-<Cxx>-<suffix> (detached at /repo's HEAD) with an out/ directory."""
 import glob, json, os, re, subprocess, sys
 
@@ -37,6 +38,9 @@ for p in props:
                 "functions rely on — possibly in another file —, a trait impl, macro or attribute they depend on, or an interaction between two "
                 "functions that each stay plausible on their own), so that the collection covers more of it. Prefer the subtlest change you can "
                 "find: one that a careful reviewer reading the diff could plausibly approve.\n" + "".join("  - %s\n" % s for s in sites) + "\n")
+    hint = os.environ.get("SEED_HINT", "")
+    if hint:
+        note += hint.strip() + "\n\n"
     wt = "/tmp/seed-%s-%s" % (pid, suffix)
     out = tmpl.replace("__WT__", wt).replace("__ID__", pid + suffix).replace("__PROP__", note + text)
     open("/tmp/seed-prompt-%s-%s.txt" % (pid, suffix), "w").write(out)
